@@ -57,7 +57,7 @@ PROPS = {
     ),
     'C14': dict(
         level='proof',
-        contracts=['C14', 'C03', 'headerlist'],
+        contracts=['C14', 'C03', 'headerlist', 'copies'],
         frames=['codec_lemma'],
         technique='deductive: VCs from the real AST of _hval, HeaderDict.__setitem__/append/setdefault, HeaderProperty.__set__, '
                   'BaseResponse.__init__ (data-structure invariant Clean(dict)) and of BaseResponse.headerlist (comprehensions executed on a '
@@ -78,7 +78,7 @@ PROPS = {
     ),
     'C15': dict(
         level='proof',
-        contracts=['C15', 'C03', 'reqobj'],
+        contracts=['C15', 'C03', 'reqobj', 'copies'],
         frames=[],
         technique='deductive: VCs from the real AST of _lscmp, cookie_is_encoded, cookie_decode (pickle.loads dominated by the signature '
                   'equality), cookie_encode (+ inverse lemma from library axioms), get_cookie; bounded run-time check of the SimpleCookie '
@@ -142,7 +142,7 @@ PROPS = {
     ),
     'C02': dict(
         level='proof',
-        contracts=['C02'],
+        contracts=['C02', 'C20'],
         frames=[],
         technique='deductive: VCs from the real AST of Ombott.to_route, PropsMixin.method, Route.__getitem__, RadiRouter.resolve and '
                   'Ombott.handler (modular on the lookup contract of RadiDict.get) and of the Route method-table mutators; bounded exhaustive method-table check as replay harness',
@@ -175,7 +175,7 @@ PROPS = {
         trusted_base=['urllib.parse.unquote total', 'uniqueness of the decomposition of a string into &-segments (meta-argument)'],
     ),
     'C03': dict(
-        level='other', contracts=['C03', 'wsgi', 'cast'], frames=[],
+        level='other', contracts=['C03', 'wsgi', 'cast'], frames=['exc_classes'],
         technique='bounded run-time contract check: independent PEP 3333 validator as postcondition of Ombott.__call__ over an enumerated '
                   'space of handler programs x methods x statuses x hook configurations',
         explanation='BOUNDED: exhaustive product of handler programs (coverage.bounded). PROVED per function: wsgi (one start_response after '
@@ -203,7 +203,7 @@ PROPS = {
         level_note='Preemption bound and request kinds are stated in coverage.bounded.bound; threading.local semantics and CPython atomicity of single container operations assumed.',
     ),
     'C09': dict(
-        level='other', contracts=['C14', 'C03', 'C12', 'wsgi'], frames=['confinement'],
+        level='other', contracts=['C14', 'C03', 'C12', 'wsgi', 'C20'], frames=['confinement'],
         technique='bounded run-time contract check of request histories against a fresh application + weak-reference retention count; '
                   'VC on BaseResponse.__init__ (reset completeness)',
         explanation='BOUNDED histories (equality with a fresh application, self-consistency of each response, no identifier of an earlier request '
@@ -216,7 +216,7 @@ PROPS = {
         level_note='History length and request kinds are stated in coverage.bounded.bound.',
     ),
     'C10': dict(
-        level='proof', contracts=['C10', 'C03', 'C02', 'wsgi', 'reqobj'], frames=['confinement'],
+        level='proof', contracts=['C10', 'C03', 'C02', 'wsgi', 'reqobj', 'copies'], frames=['confinement'],
         technique='deductive: heap-model VCs from the real AST of the ts_props accessors (fget/fset/fdel) and of the wrapped __init__ '
                   '(ownership: an accessor touches only the store of the instance it is called on; init writes nothing but its own instance '
                   'and its own store; no nonlocal/global write), and of HTTPResponse.apply (no aliasing of long-lived objects); bounded '
@@ -292,7 +292,7 @@ PROPS = {
         level_note='Bounds are stated in coverage.bounded.bound.',
     ),
     'C12': dict(
-        level='other', contracts=['C05', 'body_read', 'C18', 'C12', 'fieldstorage', 'body_access', 'C03', 'collect', 'config', 'C06'], frames=['errors_map_const'],
+        level='other', contracts=['C05', 'body_read', 'C18', 'C12', 'fieldstorage', 'body_access', 'C03', 'collect', 'config', 'C06'], frames=['errors_map_const', 'exc_classes'],
         technique='bounded run-time contract check of grammar-mutated bodies through Ombott.__call__ (status class, delivered fields complete); '
                   'proved exception frames of _iter_chunked, _body_read, _body, _raise, _get_body_string, json, POST, FieldStorage.read; termination of the readers and of parse_qsl',
         explanation='BOUNDED grammar mutations, truncations, byte mutations, small-scope bodies; proved: _iter_chunked raises only BodyParsingError, '
